@@ -470,6 +470,11 @@ coap_oscore_new_pdu_encrypted_lkd(coap_session_t *session,
       oscore_encode_option_value(oscore_option, sizeof(oscore_option), cose,
                                  group_flag,
                                  session->b_2_step != COAP_OSCORE_B_2_NONE);
+  if (coap_request && oscore_option_len == 0) {
+    /* A request always has a kid and a Partial IV: 0 means it did not fit */
+    coap_log_warn("OSCORE: OSCORE option cannot be encoded\n");
+    goto error;
+  }
   if (!coap_request) {
     /* Reset what was just unset as appropriate for AAD */
     cose_encrypt0_set_key_id(cose, rcp_ctx->recipient_id);
